@@ -5,16 +5,16 @@ claim("C01", PBT + " of a statistical oracle: Monte Carlo means against closed-f
 claim("C02", PBT + " against brute-force Symanzik constants (N_T, c_min, C_sum) with corner-heavy structured points",
       "For thousands of generated graphs and corner/rare-sector points the returned u, v and jacobian/normalisation are checked against bounds computed by enumerating spanning trees and 2-forests. Exploration with a sound oracle; bounds hold with equality at corners so any mis-tracked tropical factor shows up.",
       "Feynman parameters observed through the crate's debug log (itself checked by C07); tolerance condition-scaled; domain kappa*c_V<=1e8 as in the property.", "DESIGN.md §5 C02")
-claim("C03", PBT + " against a union-find / exact-rational reference model of every table entry",
+claim("C03", PBT + " against a union-find / exact-rational reference model of every table entry; stateful stages: families of sibling graphs and soak histories (10^5 builds of a small pool on one thread) checked against the same model",
       "Arbitrary multigraphs; every one of the 2^E subsets of every accepted graph compared with an independent reference (cyclomatic number, spanning flag, exact omega) plus reported dod/dimension/edge data.",
       "Trusts the reference model (written from the property statement), num::BigRational, serde_json as the window onto the table. E<=7 (quick) / E<=10 (thorough).", "DESIGN.md §5 C03")
-claim("C04", PBT + " with exact rational arithmetic: local recursion on the table's values, recomputation from omegas, E!-ordering sum, own Gamma for the normalisation",
+claim("C04", PBT + " with exact rational arithmetic: local recursion on the table's values, omegas tied to the exact reference, recomputation from omegas, E!-ordering sum, own Gamma for the normalisation; families of sibling graphs built on one thread",
       "Every subset of every accepted generated graph satisfies the J recursion exactly (rationals), J(full) equals the ordering sum, probabilities sum to one, cached_factor equals the closed formula.",
       "Own ln Gamma accurate to 1e-14; E<=7 for the ordering sum (8 in thorough).", "DESIGN.md §5 C04")
-claim("C05", PBT + " with boundary-pushed weights, exact rational omega oracle for the iff, catch_unwind for panics, repeated and cross-process builds for determinism",
+claim("C05", PBT + " with boundary-pushed weights, exact rational omega oracle for the iff, catch_unwind for panics, repeated and cross-process builds for determinism, families of sibling graphs and soak histories on one thread",
       "Accept/reject decision of build_sampler compared with the exact classification for tens of thousands of graphs incl. ones whose deciding omega sits at +-1/64, +-1e-6; J finite/positive on acceptance; no panic; byte-identical tables across builds and processes.",
       "Subsets with |omega|<=1e-9 excluded from the iff as the property says; hash-seed variation sampled, not enumerated.", "DESIGN.md §5 C05")
-claim("C06", PBT + " with a boundary-heavy generator for the edge-choice coordinates and an exact-rational cumulative-sum oracle applied at every step of the walk",
+claim("C06", PBT + " with a boundary-heavy generator for the edge-choice coordinates and an exact-rational cumulative-sum oracle applied at every step of the walk; second decider: the sampler run with an exact rational user scalar, edge-choice coordinate exactly on / 2^-e beside a cumulative boundary, decided without tolerance",
       "Every removal step of every generated walk is compared with the exact inverse-CDF choice; u within ulps of boundaries and of 1, 0, subnormals are generated on purpose; any panic is a violation. Found the genuine u=1-2^-53 panic (fixed).",
       "Removal order observed through the debug log with xi=2^-omega; 64*E*eps neighbourhood accepts both neighbours; reference J by own recursion.", "DESIGN.md §5 C06")
 claim("C07", PBT + " against an oracle-side simulation of the sector walk and brute-force tropical polynomials",
@@ -38,22 +38,22 @@ claim("C12", PBT + " with branch-aware generators against own incomplete-gamma f
 claim("C13", PBT + " against a reference Box-Muller on the designated coordinates",
       "Every Gaussian component of every generated sample equals the transform of its own coordinate pair (layout, cos/sin order, odd D*L).",
       "Tolerance 2e-14*r for the rounding of 2*pi*b.", "DESIGN.md §5 C13")
-claim("C14", PBT + " with dynamic dependency (taint) tracking through a user-supplied scalar type, plus value-level perturbations",
+claim("C14", PBT + " with dynamic dependency (taint) tracking through a user-supplied scalar type, plus value-level perturbations and role checks in plain f64 with print_debug_info off and on",
       "Per execution: exact dependency sets of L, u, v, jacobian, lambda, each Gaussian component; coverage of all coordinates; trailing coordinates untouched; short points rejected.",
       "Dependency sets are syntactic upper bounds; complemented by perturbation runs.", "DESIGN.md §5 C14")
 claim("C15", PBT + " against exact rational linear algebra (determinant, inverse, factor products)",
       "SPD matrices n=1..8 of six structural classes up to cond 1e10: factor shape, R^T R, R^-1 R, determinant, inverse within 1000*eps*cond.",
       "Exact Gauss-Jordan over BigRational as reference.", "DESIGN.md §5 C15")
-claim("C16", PBT + " over all symmetric matrices and over samples with the stability test enabled; exact recomputation of the stability residual",
+claim("C16", PBT + " over all symmetric matrices and over samples with the stability test enabled; exact recomputation of the stability residual; third decider: the generic routine run with an exact-ring user scalar (coarse sqrt and division) and tolerances 0.5..1.001 times the exactly known distance",
       "Ok never carries a zero determinant; exactly singular (exact-arithmetic) matrices give ZeroDet; with Some(tol) an Ok result is NaN-free and its exact L_2,1 residual is <= tol (+rounding slack), both for decompose_for_tropical and through samples. Found the genuine NaN-passes-the-test defect (fixed).",
       "Rounding slack of the f64 residual evaluation is added to tol.", "DESIGN.md §5 C16")
-claim("C17", "model-based / stateful " + PBT + ": histories of sample / rng-sample / clone / serde-copy / thread-burst operations checked against a first-observation model; cross-process comparison",
+claim("C17", "model-based / stateful " + PBT + ": histories of sample / rng-sample / clone / serde-copy / thread-burst / constant-point-on-two-samplers / tolerance-threshold operations checked against a first-observation model; cross-process comparison",
       "Bit-equality of every observation with the model across histories, flag combinations, 2-8 concurrent threads and a fresh process; rng equivalence and exact draw count.",
       "Thread schedules sampled, not enumerated; absence of interior mutability reported by a source scan (supplementary).", "DESIGN.md §5 C17")
 claim("C18", PBT + " of a round-trip oracle in two self-describing formats",
       "Restored samplers re-serialise byte-identically, report the same quantities and sample bit-identically (incl. metadata) on 13 generated points each.",
       "serde_json text (float_roundtrip) and its value tree as formats; sampling equality on generated points, not all points.", "DESIGN.md §5 C18")
-claim("C19", PBT + " with two user scalar types: taint tracking of every to_f64/from_f64, and a double-double type whose outputs are checked with exact rationals at 1e-26*kappa",
+claim("C19", PBT + " with two user scalar types: taint tracking of every to_f64/from_f64, and a double-double type whose outputs are checked with exact rationals at 1e-26*kappa, incl. edge choices placed 1e-20..1e-27 beside an exact cumulative boundary",
       "No value depending on anything but the gamma coordinate is ever narrowed; a 106-bit scalar yields 1e-31-accurate u, inverse, momenta, routing-independent v and jacobian.",
       "Double-double library validated at design time; tolerance 1e-26*kappa.", "DESIGN.md §5 C19")
 claim("C20", PBT + " against plain-array IEEE reference, compared by bit pattern",
